@@ -376,4 +376,82 @@ theorem output_split (line : Bytes) :
 
 example : parseCheckOutput [79, 75, 32, 124, 32, 97, 61, 49, 10, 120, 124, 121] = ([79, 75, 32, 10, 120, 124, 121], [97, 61, 49]) := by decide
 
+/-! ## Specification on the trace -/
+
+/-- The model's check result meets the specification predicates the driver evaluates on the
+    implementation's observations (`exit_mapping`, `output_text`, `perfdata`), for every exit status and
+    every plugin output. -/
+theorem model_result_meets_spec (exit : Int) (raw : Bytes) :
+    specExit exit (processFinished exit raw).state (processFinished exit raw).exit = none ∧
+    specOutput exit raw (processFinished exit raw).output (processFinished exit raw).perfdata = none := by
+  constructor
+  · simp [specExit, processFinished, specState_eq]
+  · have h : ∀ out, (parseCheckOutput out) =
+        (joinQuirk LF ((splitLines [] out).map textPart), trim (joinQuirk SPACE ((splitLines [] out).filterMap perfPart))) := by
+      intro out
+      simp [parseCheckOutput, foldl_parseStep, joinQuirk, joinQuirkFrom]
+    simp only [specOutput, processFinished, handledOutput, h]
+    split <;> simp
+
+theorem expand_plain_esc (objs : List Obj) (rec : Bytes → Res) (m v : Bytes) (hm : m ≠ [])
+    (hv : resolveMacro objs m = .found (.str v) false) :
+    expandMacro objs rec true m = .ok (.str (escapeShellArg v), false) := by
+  simp [expandMacro, hv, hm, escapeMacroShellArg, pure, Except.pure, bind, Except.bind]
+
+theorem map_fill_id (vals : List Bytes) (l : List Bytes) (h : ∀ w ∈ l, fillWord vals w = w) : l.map (fillWord vals) = l := by
+  induction l with
+  | nil => rfl
+  | cons x xs ih => simp [h x (by simp), ih (fun w hw => h w (by simp [hw]))]
+
+/-- Spec on the trace for string command lines, PARTIAL: for a template `p $m$` whose prefix `p` leaves
+    the sh lexer between words in its unquoted state (the hypothesis `shell_quote_roundtrip` forces), with a
+    non-recursive macro of value `v` — any bytes — the model's command line, read by the lexer, gives exactly
+    the argument vector the specification predicate `string_cmd_verbatim` demands (the template's words
+    with `v` verbatim as one word).  FULL STATEMENT (every template, several macros, macros inside words):
+    not proved — it needs a simulation between the lexer run on the template and on the resolved line;
+    the driver evaluates the predicate on every end-to-end run instead.  For templates that put a macro
+    inside double quotes the statement is false (`shell_quote_needs_unquoted_counterexample`, F-C09a). -/
+theorem model_string_command_meets_spec_partial (objs : List Obj) (fuel : Nat) (p m v : Bytes) (s : ShSt)
+    (hp : DOLLAR ∉ p) (hmd : DOLLAR ∉ m) (hm : m ≠ [])
+    (hv : resolveMacro objs m = .found (.str v) false)
+    (hpre : shRun {} p = .ok s) (hmode : s.mode = .unq) (hcur : s.cur = none)
+    (hfill : ∀ w ∈ s.done, fillWord [v] w = w)
+    (valueOf : Bytes → Option Bytes) (hval : valueOf m = some v) :
+    ∃ line argv, internalResolve objs (fuel + 1) true (p ++ DOLLAR :: (m ++ [DOLLAR])) = .ok (.str line, false)
+      ∧ shWords line = .ok argv
+      ∧ specStringCmd (p ++ DOLLAR :: (m ++ [DOLLAR])) valueOf argv = none := by
+  refine ⟨p ++ escapeShellArg v, s.done.reverse ++ [v], ?_, (shell_quote_one_word p v s hpre hmode hcur).1, ?_⟩
+  · have htok := tokenize_macro p m [] hp hmd
+    have hnil : tokenize [] = [.lit []] := rfl
+    rw [hnil] at htok
+    simp only [internalResolve, htok]
+    split
+    · next h =>
+      simp only [List.cons.injEq, Tok.lit.injEq, Tok.mac.injEq] at h
+      obtain ⟨rfl, rfl, _⟩ := h
+      simp [expand_plain_esc objs _ _ v hm hv]
+    · simp [concatToks, expand_plain_esc objs _ m v hm hv, Val.scalarBytes, bind, Except.bind, pure, Except.pure]
+  · have htok := tokenize_macro p m [] hp hmd
+    have hnil : tokenize [] = [.lit []] := rfl
+    rw [hnil] at htok
+    obtain ⟨done, cur, mode⟩ := s
+    simp only at hmode hcur hfill
+    subst hmode hcur
+    have hrun : shWords (p ++ placeholder 0) = .ok (done.reverse ++ [placeholder 0]) := by
+      simp [shWords, shRun_append, hpre, placeholder, shRun, shStep, shSpecial, ShSt.push, ShSt.finish, SQUOTE, BSLASH, SPACE,
+        bind, Except.bind, pure, Except.pure]
+    have hfw : fillWord [v] (placeholder 0) = v := by
+      simp [placeholder, fillWord]
+    have hmap : (done.reverse ++ [placeholder 0]).map (fillWord [v]) = done.reverse ++ [v] := by
+      rw [List.map_append, map_fill_id [v] done.reverse (fun w hw => hfill w (by simpa using hw))]
+      simp [hfw]
+    simp [specStringCmd, specExpectedArgv, htok, substTemplate, macroNames, hval, hrun, hmap]
+
+-- the predicates are not vacuous: a wrong state, a perfdata part left in the output are rejected
+example : specExit 2 3 2 = some .exitMapping := by decide
+example : specOutput 0 [79, 75, 124, 97, 61, 49] [79, 75, 124, 97, 61, 49] [] = some .outputText := by decide
+example : specOutput 0 [79, 75, 124, 97, 61, 49] [79, 75] [[97, 61, 49]] = none := by decide
+example : specStringCmd [47, 112, 32, 36, 97, 36] (fun _ => some [120, 32, 121]) [[47, 112], [120], [121]] = some .stringCmdVerbatim := by decide
+example : specStringCmd [47, 112, 32, 36, 97, 36] (fun _ => some [120, 32, 121]) [[47, 112], [120, 32, 121]] = none := by decide
+
 end Icinga.C09
